@@ -226,6 +226,11 @@ def _p_constant_that_does_not_fit():
     return lambda: bytes(rq.coded_const_prefix())
 
 
+def _p_illegal_boolean_text():
+    from odxtools.odxtypes import odxstr_to_bool
+    return lambda: odxstr_to_bool("yes")
+
+
 def _p_ambiguous_snref():
     items = [Named("t"), Named("t")]
     return lambda: resolve_snref("t", items)
@@ -250,6 +255,7 @@ PROBLEMS = {
     "request-value-out-of-range": _p_request_value_out_of_range,
     "ambiguous-snref": _p_ambiguous_snref,
     "constant-that-does-not-fit": _p_constant_that_does_not_fit,
+    "illegal-boolean-text": _p_illegal_boolean_text,
 }
 
 
